@@ -7,6 +7,17 @@
 
 #define RESPONSE_LENGTH TORSION_PLUS_EVEN_POWER + 16
 
+#ifdef SQISIGN_SQISIGN2D_WEST_AC24_VERIF
+sqisign_verif_tap_fn sqisign_verif_tap = 0;
+#define VERIF_TAP(tag, obj, val)                                                                   \
+    do {                                                                                           \
+        if (sqisign_verif_tap)                                                                     \
+            sqisign_verif_tap((tag), (obj), (val));                                                \
+    } while (0)
+#else
+#define VERIF_TAP(tag, obj, val)
+#endif
+
 const clock_t time_isogenies_odd = 0;
 const clock_t time_sample_response = 0;
 const clock_t time_change_of_basis_matrix = 0;
@@ -800,7 +811,9 @@ protocols_verif(signature_t *sig, const public_key_t *pk, const unsigned char *m
                 &phi_chall.kernel);
 
     assert(test_point_order_twof(&phi_chall.kernel, &Echall, phi_chall.length));
+    VERIF_TAP("small_ker", &phi_chall.kernel, phi_chall.length);
     ec_eval_even(&Echall, &phi_chall, points, 3);
+    VERIF_TAP("E_chall", &Echall, phi_chall.length);
 
     assert(ec_is_on_curve(&Echall, &points[0]));
     assert(ec_is_on_curve(&Echall, &points[1]));
@@ -867,6 +880,11 @@ protocols_verif(signature_t *sig, const public_key_t *pk, const unsigned char *m
     copy_point(&T1.P1, &B_chall.P);
     copy_point(&T2.P1, &B_chall.Q);
     copy_point(&T1m2.P1, &B_chall.PmQ);
+    VERIF_TAP("E1", &EchallxEaux.E1, 0);
+    VERIF_TAP("E2", &EchallxEaux.E2, 0);
+    VERIF_TAP("T1", &T1, pow_dim2_deg_resp);
+    VERIF_TAP("T2", &T2, pow_dim2_deg_resp);
+    VERIF_TAP("T1m2", &T1m2, pow_dim2_deg_resp);
 
     // computing the isogeny
     // no points above the twotorsion
@@ -887,9 +905,12 @@ protocols_verif(signature_t *sig, const public_key_t *pk, const unsigned char *m
     // apparently its always the second one
     ec_curve_t E_com;
     copy_curve(&E_com, &isog.codomain.E2);
+    VERIF_TAP("E_com_alt", &isog.codomain.E1, 0);
+    VERIF_TAP("E_com", &E_com, 0);
 
     // recomputing the challenge vector
     hash_to_challenge(&check_vec_chall, &E_com, m, pk, l);
+    VERIF_TAP("check_chall", &check_vec_chall, 0);
 
     // comparing
     // recovering the exact vec_chall
@@ -920,6 +941,7 @@ protocols_verif(signature_t *sig, const public_key_t *pk, const unsigned char *m
         copy_curve(&E_com, &isog.codomain.E1);
         // recomputing the challenge vector
         hash_to_challenge(&check_vec_chall, &E_com, m, pk, l);
+        VERIF_TAP("check_chall", &check_vec_chall, 1);
 
         // performing the final check
         if (sig->hint_b) {
